@@ -554,7 +554,7 @@ def gate_args(gate, rng, **fixed):
         if a in fixed:
             out[a] = fixed[a]; continue
         if a == "theta":
-            v = rng.choice([rng.uniform(-7, 7), math.pi, -math.pi / 2, math.pi / 4, -math.pi / 4])
+            v = rng.choice([rng.uniform(-7, 7), math.pi, -math.pi / 2, math.pi / 4, -math.pi / 4, 0.0, -0.0, rng.uniform(-1e-6, 1e-6)])
         elif a.startswith("phi"):
             v = rng.choice([rng.uniform(-7, 7), 0.0, -0.0, math.pi / 2])
         elif a in ("t_cnot", "t_ecr"):
@@ -1069,6 +1069,12 @@ def main(ctx):
     casesB.append({"level": "gate", "family": "corpus-typed-theta", "idx": -2, "sets": [["numerical_gates"], ["Gates", ["constant-numerical"]]],
                    "alive": [1], "history": [[1, "single_qubit_gate", dict(v0, theta=fl(0.5, "np.float32"))]],
                    "final": [1, "single_qubit_gate", dict(v0, theta=fl(0.5))], "seed": 1, "history_seed": 2})
+    # a cross-resonance pulse of zero area (theta = 0.0 / -0.0): its sample must be reproduced by the seed like any other
+    c0 = {a: fl(x) for a, x in zip(gc.GATE_ARGS["CR"], (0.0, 0.4, 3.7 * TG, 0.02, 60e-6, 40e-6, 80e-6, 50e-6))}
+    for k, th in enumerate((0.0, -0.0)):
+        casesB.append({"level": "gate", "family": "corpus-zero-angle-cr", "idx": -3 - k, "sets": [["standard_gates"], ["Gates", ["constant"]]],
+                       "alive": [1], "history": [[1, "CR", dict(c0, theta=fl(th))]], "final": [1, "CR", dict(c0, theta=fl(th))],
+                       "seed": 5, "history_seed": 6})
     for fam in B_FAMILIES:
         casesB.append(gen_gate_case(rng, fam, set_descs, len(casesB)))
     while len(casesB) < nB:
